@@ -2,7 +2,8 @@
    Statements about Model/CollectQ.v (tied to symplyphysics/core/dimensions/collect_quantity.py and
    Quantity.__init__ by the correspondence check of harness/props/c05.py).  Only `exact` here. *)
 From Coq Require Import List QArith ZArith Bool NArith Permutation.
-From VP Require Import Base.Util Base.Dim Base.Val Model.CollectQ Proofs.DimProofs Proofs.CollectQProofs.
+From VP Require Import Base.Util Base.Dim Base.Val Model.CollectQ Proofs.DimProofs Proofs.CollectQProofs
+  Proofs.CollectQGlobal.
 Import ListNotations.
 
 (* the scale factor is the arithmetic value of the expression *)
@@ -82,3 +83,33 @@ Print Assumptions C05_quantity_ctor_spec.
 Theorem C05_cancelling_prefix_refused : collect w_cancel = Err E_VALUE /\ collect w_cancel' = Err E_VALUE.
 Proof. exact collect_cancelling_prefix_refused. Qed.
 Print Assumptions C05_cancelling_prefix_refused.
+
+(* ---- whole trees ---------------------------------------------------------------------------------
+   WF (Proofs/CollectQGlobal.v) is the property text as an order-free judgment over the whole tree: numbers, quantities
+   and prefixes; non-empty products of WF factors; powers whose exponent is of any dimension or dimensionless; sums / min /
+   max whose terms not of any dimension have pairwise equivalent dimensions (min/max: comparable values); abs; functions
+   whose arguments are of any dimension or dimensionless.  Free symbols and unevaluated derivatives are not WF. *)
+Theorem C05_accepts_iff_WF : forall e, (exists r, collect e = Ok r) <-> WF e.
+Proof. exact collect_accepts_iff_WF. Qed.
+Print Assumptions C05_accepts_iff_WF.
+
+(* "construction is refused exactly when ..." *)
+Theorem C05_refuses_iff_not_WF : forall e, (exists k, collect e = Err k) <-> ~ WF e.
+Proof. exact collect_refuses_iff_not_WF. Qed.
+Print Assumptions C05_refuses_iff_not_WF.
+
+Theorem C05_order_irrelevant : forall l l', Permutation l l' ->
+  ((exists r, collect (QAdd l) = Ok r) <-> (exists r, collect (QAdd l') = Ok r)) /\
+  ((exists r, collect (QMin l) = Ok r) <-> (exists r, collect (QMin l') = Ok r)) /\
+  ((exists r, collect (QMax l) = Ok r) <-> (exists r, collect (QMax l') = Ok r)) /\
+  ((exists r, collect (QMul l) = Ok r) <-> (exists r, collect (QMul l') = Ok r)).
+Proof. exact collect_order_irrelevant. Qed.
+Print Assumptions C05_order_irrelevant.
+
+(* "... a scale factor equal to the value of the expression and a dimension equal to the dimensional product of its
+   parts": for a well-formed tree all of whose sub-values are finite, unless the value is of any dimension *)
+Theorem C05_dim_is_product : forall e, WF e -> Fin e ->
+  exists v d, collect e = Ok (v, d) /\ v = value e /\ wf_dim d /\
+              (is_any v = true \/ deq d (nominal_dim e)).
+Proof. exact collect_dim_is_product. Qed.
+Print Assumptions C05_dim_is_product.
